@@ -14,13 +14,17 @@ second, independently written formulation that is also evaluated at the inner
 quiescent points (every public DataCollection method entry/exit while the
 harness is inside a step).  A history stops at its first violation.
 """
+import gc
 import itertools
+import json
 import os
 
-from glue.core import DataCollection
+from glue.core import Data, DataCollection
 from glue.core import command as gcmd
 from glue.core.application_base import Application
-from glue.core.hub import Hub
+from glue.core.hub import Hub, HubListener
+from glue.core.message import (DataCollectionAddMessage, DataCollectionDeleteMessage, SubsetCreateMessage,
+                               SubsetDeleteMessage)
 from glue.core.state import GlueSerializer, GlueUnSerializer
 
 from vf.common import exc_name
@@ -56,12 +60,12 @@ class Stop(Exception):
 
 
 # ---------------------------------------------------------------- second formulation: icontract invariant
-_IC = {"armed": False, "delay_depth": 0, "evaluations": 0, "installed": False, "error": None}
+_IC = {"armed": False, "delay_depth": 0, "broadcast_depth": 0, "evaluations": 0, "installed": False, "error": None}
 
 
 def _one_subset_per_group(self):
     """Every dataset in the collection has exactly one subset per live group and no others."""
-    if not _IC["armed"] or _IC["delay_depth"] > 0:
+    if not _IC["armed"] or _IC["delay_depth"] > 0 or _IC["broadcast_depth"] > 0:
         return True
     _IC["evaluations"] += 1
     groups = self.subset_groups
@@ -94,6 +98,15 @@ def install_icontract():
             finally:
                 _IC["delay_depth"] -= 1
         Hub.delay_callbacks = delay_callbacks
+        orig_broadcast = Hub.broadcast
+
+        def broadcast(self, message):
+            _IC["broadcast_depth"] += 1
+            try:
+                return orig_broadcast(self, message)
+            finally:
+                _IC["broadcast_depth"] -= 1
+        Hub.broadcast = broadcast
         icontract.invariant(_one_subset_per_group, "one subset per (dataset, group)")(DataCollection)
     except Exception as exc:   # evidence only; the quiescent-point check does not depend on it
         _IC["error"] = repr(exc)
@@ -109,10 +122,98 @@ def finish(ctx):
     ctx.count("icontract_invariant_evaluations", _IC["evaluations"])
 
 
+# ---------------------------------------------------------------- re-entrant hub listener (harness-owned)
+class Reactor(HubListener):
+    """Subscribed to the collection's hub.  While a change message is being delivered it (a) reads the collection
+    through the public API (never a verdict: mid-broadcast states are not quiescent) and (b) fires at most one pending
+    one-shot reaction that calls back into the collection."""
+
+    def __init__(self, world):
+        self.w = world
+        self.pending = []        # reaction kinds waiting for their trigger message
+        self.reading = False
+        self.serial = world.serial
+        hub = world.dc.hub
+        hub.subscribe(self, DataCollectionAddMessage, self.on_add)
+        hub.subscribe(self, DataCollectionDeleteMessage, self.on_del)
+        hub.subscribe(self, SubsetCreateMessage, self.on_subset)
+        hub.subscribe(self, SubsetDeleteMessage, self.on_subset)
+
+    def read(self):
+        if not self.reading:
+            return
+        n = 0
+        dc = self.w.dc
+        for d in dc:
+            for sub in d.subsets:
+                n += 1 if (sub.label, sub.subset_state, sub.style) else 1
+        for g in dc.subset_groups:
+            n += len(g.subsets)
+        self.w.ctx.count("reads_during_broadcast")
+
+    def on_subset(self, msg):
+        self.read()
+
+    def take(self, kinds):
+        if self.w.fired is not None:        # at most one reaction per top-level step: one mechanism per signature
+            return None
+        for k in self.pending:
+            if k in kinds:
+                self.pending.remove(k)
+                return k
+        return None
+
+    def on_add(self, msg):
+        self.read()
+        w = self.w
+        k = self.take(("new_group", "remove_other", "remove_group_other", "remove_same"))
+        if k is None:
+            return
+        w.fired = k
+        w.ctx.count("reaction_fired_" + k)
+        name = w.names.of(msg.data)
+        if k == "new_group":
+            w.step(["new_group", 5], nested=True)
+        elif k == "remove_other":
+            others = [n for n in w.m_in if n != name]
+            if others:
+                w.step(["remove", others[0]], nested=True)
+        elif k == "remove_group_other":
+            w.step(["remove_group", 0], nested=True)
+        elif k == "remove_same":
+            # inverse operation on the dataset whose addition is being announced
+            w.dc.remove(msg.data)
+
+    def on_del(self, msg):
+        self.read()
+        w = self.w
+        k = self.take(("append_other", "readd_same"))
+        if k is None:
+            return
+        w.fired = k
+        w.ctx.count("reaction_fired_" + k)
+        if k == "append_other":
+            w.step(["append_new"], nested=True)
+        else:
+            w.dc.append(msg.data)
+
+
+# the last three re-enter with an operation on the very subject of the message in flight (or on a group that is among its
+# recipients); see notes/C06.md - set REENTRANT_ON_SUBJECT = False to keep them out of the workload
+REENTRANT_ON_SUBJECT = True
+REACTIONS = ["read", "new_group", "remove_other", "append_other", "remove_group_other", "remove_same", "readd_same"]
+FAULTS = ["append_non_data", "merge_single", "merge_shape", "setitem_nonstring_key", "extend_none", "getitem_missing"]
+
+
 # ---------------------------------------------------------------- the world
 class World:
-    def __init__(self, ctx):
+    def __init__(self, ctx, shared=None):
         self.ctx = ctx
+        self.shared = shared if shared is not None else {"states": {}}
+        self.reactor = None
+        self.fired = None
+        self.post_model = []
+        self.wid = "main"
         self.names = Names()
         self.pool = {}
         self.cids = {}
@@ -138,7 +239,7 @@ class World:
         self.checks = 0
 
     def _new_pool_data(self, name):
-        d = fresh_data(name)
+        d = Data(label=name) if name.startswith("z") else fresh_data(name)      # z<k>: a dataset without components
         self.pool[name] = d
         self.names.add(d, name)
         for c in d.main_components:
@@ -192,18 +293,155 @@ class World:
         return self.groups[gi % len(self.groups)]
 
     # ---- steps
-    def step(self, tok):
-        """Execute one token against real glue.  Returns (status, info) ; raises Stop after reporting a violation."""
+    def stack_names(self):
+        return set(e.get("name") for e in self.m_done + self.m_undone)
+
+    def step(self, tok, nested=False):
+        """Execute one token against real glue.  Returns (status, info) ; raises Stop after reporting a violation.
+        nested=True: called from inside a delay block or from a re-entrant handler (the outer step owns the context)."""
         self.serial += 1
         op = tok[0]
         info = {"op": op, "cmd": None}
-        self._cur = info
+        if not nested:
+            self._cur = info
+            self.fired = None
+            _IC["armed"] = True
         dc = self.dc
         may_create_group = False
         may_drop_groups = []
-        _IC["armed"] = True
         try:
-            if op == "append":
+            if op == "delay":
+                # several public calls inside one hub.delay_callbacks() block; the quiescent point is the end of the block
+                info["block_start"] = self.serial
+                self.flags.add("delay_block")
+                with dc.hub.delay_callbacks():
+                    for sub in tok[1]:
+                        st, _ = self.step(sub, nested=True)
+                        self.ctx.count("delay_block_steps_" + ("skipped" if st == "skipped" else sub[0]))
+            elif op == "react":
+                kind = REACTIONS[tok[1] % (len(REACTIONS) if REENTRANT_ON_SUBJECT else 4)]
+                if self.reactor is None:
+                    self.reactor = Reactor(self)
+                if kind == "read":
+                    self.reactor.reading = True
+                else:
+                    self.reactor.pending.append(kind)
+                self.flags.add("reentrant_listener")
+            elif op == "fault":
+                kind = FAULTS[tok[1] % len(FAULTS)]
+                expected = {"append_non_data": TypeError, "merge_single": ValueError, "merge_shape": ValueError,
+                            "setitem_nonstring_key": TypeError, "extend_none": TypeError, "getitem_missing": ValueError}[kind]
+                try:
+                    if kind == "append_non_data":
+                        dc.append(object())
+                    elif kind == "merge_single":
+                        dc.merge(self.data("d0"))
+                    elif kind == "merge_shape":
+                        dc.merge(self.data("d0"), self.data("d2"))
+                    elif kind == "setitem_nonstring_key":
+                        dc[3] = self.data("d1")
+                    elif kind == "extend_none":
+                        dc.extend(None)
+                    elif kind == "getitem_missing":
+                        dc["no such label"]
+                    self.ctx.count("fault_call_did_not_raise")
+                except expected:
+                    self.ctx.count("fault_call_raised_as_documented")
+                self.flags.add("fault_call")
+            elif op == "append_empty":
+                self.n_empty = getattr(self, "n_empty", 0) + 1
+                name = "z%d" % self.n_empty
+                dc.append(self.data(name))
+                self._m_append(name)
+                self.flags.add("empty_dataset")
+            elif op == "fill_empty":
+                name = "z%d" % getattr(self, "n_empty", 0)
+                d = self.pool.get(name)
+                if d is None or len(d.main_components) > 0:
+                    return "skipped", info
+                d.add_component([1.0, 2.0, 3.0, 4.0], name + "_x")
+            elif op == "append_prereg":
+                self.n_extra += 1
+                name = "e%d" % self.n_extra
+                d = self.data(name)
+                d.register_to_hub(dc.hub)        # hub already set before the dataset ever joins
+                dc.append(d)
+                self._m_append(name)
+                self.flags.add("preregistered_dataset")
+            elif op == "extend_dup":
+                d = self.data(tok[1])
+                dc.extend([d, d])                # the same object twice
+                self._m_append(tok[1])
+            elif op == "extend_empty":
+                dc.extend([])
+                dc.append([])
+            elif op == "setitem_replace":
+                name = tok[1]
+                if name not in self.m_in or name in self.stack_names() or name.startswith("m"):
+                    return "skipped", info
+                old = self.pool[name]
+                self._m_remove(name)
+                twin = self._new_pool_data(name)     # equal content, same label, distinct object
+                dc[name] = twin
+                self._m_append(name)
+                self.removed_data = [x for x in self.removed_data if x is not twin]
+                if not is_in(old, self.removed_data):
+                    self.removed_data.append(old)
+                self.flags.add("replaced_by_twin")
+            elif op == "remove_group_again":
+                if not self.removed_groups:
+                    g = self.live_group(tok[1])
+                    if g is None:
+                        return "skipped", info
+                    n = len(g.subsets)
+                    dc.remove_subset_group(g)
+                    self.groups = [x for x in self.groups if x is not g]
+                    self.removed_groups.append((g, n))
+                    self.changes += 1
+                g, _ = self.removed_groups[tok[1] % len(self.removed_groups)]
+                dc.remove_subset_group(g)            # the same removal a second time
+                self.flags.add("remove_group_twice")
+            elif op == "new_group_falsy":
+                # falsy label / default state: the collection hands out the automatic label
+                lab = [None, ""][tok[1] % 2]
+                g = dc.new_subset_group(label=lab) if tok[1] % 4 < 2 else dc.new_subset_group(lab, None)
+                self.groups.append(g)
+                self.group_serial.append((g, self.serial))
+                self.changes += 1
+            elif op == "set_state_shared":
+                g = self.live_group(tok[1])
+                if g is None:
+                    return "skipped", info
+                k = tok[2] % len(STATE_VARIANTS)
+                key = k if k in (1, 5, 6, 9) else (self.wid, k)     # attribute-free states are shared across collections too
+                if key not in self.shared["states"]:
+                    self.shared["states"][key] = build_state(STATE_VARIANTS[k], self.cid)
+                g.subset_state = self.shared["states"][key]       # the same state object in several groups
+                self.flags.add("shared_state_object")
+            elif op == "forget":
+                # drop every harness reference to removed datasets / groups and collect: addresses may be reused
+                busy = self.stack_names()
+                d = None
+                for d in list(self.removed_data):
+                    n = self.names.of(d)
+                    if n in busy or n in self.m_in:
+                        continue
+                    self.removed_data = [x for x in self.removed_data if x is not d]
+                    if self.pool.get(n) is d:
+                        del self.pool[n]
+                    self.names.drop(d)
+                    for lbl in [l for l, c in self.cids.items() if c.parent is d]:
+                        del self.cids[lbl]
+                    self.ever_removed.discard(n)
+                del d
+                if not self.m_done and not self.m_undone:
+                    dead = [g for g, _ in self.removed_groups]
+                    self.removed_groups = []
+                    self.group_serial = [(g, n) for g, n in self.group_serial if not is_in(g, dead)]
+                    del dead
+                gc.collect()
+                self.flags.add("forget_and_collect")
+            elif op == "append":
                 dc.append(self.data(tok[1]))
                 self._m_append(tok[1])
             elif op == "extend":
@@ -347,7 +585,19 @@ class World:
                 if op == "redo":
                     self.flags.add("redo_after_undo")
             elif op == "restore":
-                self.restore(tok[1])
+                try:
+                    self.restore(tok[1])
+                except Stop:
+                    raise
+                except Exception as exc:
+                    if not raised_below_harness(exc):
+                        raise
+                    # a session that refuses to save / load is a loud failure (C02 / C12 territory), not a state of the
+                    # collection that C06 could judge: tallied, the history ends here
+                    self.ctx.count("restore_failed_loudly_" + exc_name(exc))
+                    self.flags.discard("restore")
+                    raise Stop()
+                self.reactor = None          # the restored collection has its own hub
                 return "ok", info
             else:
                 raise ValueError(tok)
@@ -362,9 +612,30 @@ class World:
                 # method); the literal check decides what is reported if it sees the state as well
                 self.check(only_structure=True, extra={"icontract": str(exc)[:200]})
                 self.fail("icontract_invariant_violated_inside_step", {}, {"message": str(exc)[:300]})
-            self.fail("exception", {"exc": exc_name(exc)}, {"message": repr(exc)[:300]})
+            import traceback
+            self.fail("exception", {"exc": exc_name(exc)}, {"message": repr(exc)[:300], "traceback": traceback.format_exc()[-1500:]})
         finally:
-            _IC["armed"] = False
+            if not nested:
+                _IC["armed"] = False
+        if not nested and self.reactor is not None and op != "react":
+            self.reactor.pending = []       # a pending reaction gets exactly one top-level step to fire in
+        if not nested and self.fired is not None:
+            # a handler called back into the collection while this step was running: the order in which the membership
+            # model was updated no longer mirrors glue's; membership is bookkeeping (the invariant is evaluated on the real
+            # collection), so the model is re-synchronised from the public listing
+            self.post_model = []
+            real = [self.names.of(d) for d in dc]
+            for n in self.m_in:
+                if n not in real:
+                    self.ever_removed.add(n)
+                    if n in self.pool and not is_in(self.pool[n], self.removed_data):
+                        self.removed_data.append(self.pool[n])
+            for n in real:
+                if n not in self.m_in:
+                    self.join_serial[n] = self.serial
+            self.removed_data = [x for x in self.removed_data if not is_in(x, list(dc))]
+            self.m_in = real
+            self.ctx.count("membership_model_resynchronised_after_reentrant_step")
         # adopt groups created by commands; note groups that a command was entitled to remove
         real_groups = list(dc.subset_groups)
         new = [g for g in real_groups if not is_in(g, self.groups)]
@@ -381,6 +652,9 @@ class World:
                 self.removed_groups.append((g, len(g.subsets)))
         return "ok", info
 
+    def pool_label(self, name):
+        return name
+
     # ---- restore
     def restore(self, how):
         self.flags.add("restore")
@@ -396,24 +670,36 @@ class World:
                     os.remove(path)
         else:
             dump = GlueSerializer(self.app, include_data=True).dumps()
+            if how in ("v3", "v2"):
+                # the same record read through the loader chain of an older DataCollection protocol (no links in this
+                # workload, so the record is also a valid v3 / v2 record); v2 ignores subset_group_count
+                rec = json.loads(dump)
+                for v in rec.values():
+                    if isinstance(v, dict) and str(v.get("_type", "")).endswith("data_collection.DataCollection"):
+                        v["_protocol"] = int(how[1])
+                        self.ctx.count("restore_through_protocol_" + how)
+                dump = json.dumps(rec)
             app2 = GlueUnSerializer.loads(dump).object("__main__")
         old_labels = [g.label for g in self.groups]
+        order = [self.names.of(d) for d in self.dc]
         self.app = app2
         self.dc = app2.data_collection
         self.names = Names()
         pool = {}
         self.cids = {}
-        for d in self.dc:
-            pool.setdefault(d.label, d)
-            self.names.add(d, d.label)
-            if not d.label.startswith("m"):
+        for pos, d in enumerate(self.dc):
+            # datasets are matched by position (two datasets may carry the same label after dc[label] = twin)
+            name = order[pos] if len(order) == len(self.dc) and not order[pos].startswith("<") else d.label
+            pool.setdefault(name, d)
+            self.names.add(d, name)
+            if not name.startswith("m"):
                 for c in d.main_components:
                     self.cids[c.label] = c
         self.pool = pool      # datasets that were not in the saved collection are built anew on first use
         got = [d.label for d in self.dc]
-        if sorted(got) != sorted(self.m_in):
+        if sorted(got) != sorted(self.pool_label(n) for n in self.m_in):
             self.fail("restored_collection_has_other_datasets", {}, {"expected": self.m_in, "got": got})
-        self.m_in = got
+        self.m_in = [self.names.of(d) for d in self.dc]
         rg = list(self.dc.subset_groups)
         if sorted(g.label for g in rg) != sorted(old_labels):
             self.fail("restored_collection_has_other_groups", {"count_differs": len(rg) != len(old_labels)},
@@ -441,6 +727,17 @@ class World:
                                                 (g is not None and max([n for x, n in self.group_serial if x is g] or [-1]) > ent["serial"]))
         elif d is not None:
             sig["dataset_was_removed_and_readded"] = self.names.of(d) in self.ever_removed
+        if self.fired is not None:
+            sig["reentrant_reaction"] = self.fired
+            if g is not None and self.reactor is not None:
+                sig["listener_subscribed_before_group"] = self.reactor.serial < max([n for x, n in self.group_serial if x is g] or [-1])
+        if info.get("op") == "delay" and d is not None and g is not None:
+            bs = info.get("block_start", 0)
+            js = self.join_serial.get(self.names.of(d), -1)
+            gs = max([n for x, n in self.group_serial if x is g] or [-1])
+            sig["dataset_joined_then_group_created_in_this_block"] = bs < js < gs
+        if self.wid != "main":
+            sig["second_collection"] = True
         sig.update(keys)
         detail = dict(detail)
         detail["history_so_far"] = list(self.executed)
@@ -493,9 +790,10 @@ STARTS = {
 
 
 def run_history(ctx, start, hist, kind):
-    w = World(ctx)
+    shared = {"states": {}}
+    w = World(ctx, shared)
     w.executed = []
-    applied = 0
+    sib = None
     try:
         for tok in STARTS[start]:
             w.executed.append(tok)
@@ -504,19 +802,29 @@ def run_history(ctx, start, hist, kind):
         w.changes = 0
         for tok in hist:
             w.executed.append(tok)
-            status, info = w.step(tok)
+            if tok[0] == "sib":
+                # the same kind of step on a second, independent collection that is alive at the same time
+                if sib is None:
+                    sib = World(ctx, shared)
+                    sib.wid = "sib"
+                    sib.executed = w.executed
+                    w.flags.add("second_collection")
+                status, info = sib.step(tok[1])
+            else:
+                status, info = w.step(tok)
             if status == "skipped":
                 ctx.count("steps_skipped_not_applicable")
                 continue
-            applied += 1
-            ctx.count("steps_" + tok[0])
+            ctx.count("steps_" + (tok[0] if tok[0] != "sib" else "sib_" + tok[1][0]))
             w.check()
+            if sib is not None:
+                sib.check()
     except Stop:
         ctx.count("histories_stopped_at_first_violation")
     nontrivial = w.coexisted and w.changes >= 2
-    ctx.evaluation([start, hist], nontrivial, n=max(w.checks, 1))
+    ctx.evaluation([start, hist], nontrivial, n=max(w.checks + (sib.checks if sib else 0), 1))
     ctx.count("histories_" + kind)
-    for f in w.flags:
+    for f in w.flags | (sib.flags if sib else set()):
         ctx.count("histories_with_" + f)
     if len(w.flags & {"remove_then_reappend", "restore"}) == 2:
         ctx.count("histories_with_reappend_and_restore")
@@ -532,7 +840,12 @@ REDUCED = [0, 3, 5, 6, 7, 13, 14, 15, 17, 18, 19]
 ENUM = {"quick": [("empty", 3, ALPHABET), ("two_data_one_group", 3, ALPHABET)],
         "thorough": [("empty", 4, ALPHABET), ("two_data_one_group", 4, ALPHABET),
                      ("two_data_one_group", 5, [ALPHABET[i] for i in REDUCED])]}
-N_RANDOM = {"quick": 2400, "thorough": 60000}
+N_RANDOM = {"quick": 1800, "thorough": 50000}
+N_WIDE = {"quick": 800, "thorough": 30000}      # widened random class (adversarial round), see wide_history
+N_BULK = {"quick": 12, "thorough": 120}
+# delay-block family: every pair / triple of these public calls inside one hub.delay_callbacks() block
+DELAY_SUB = [["append", "d2"], ["remove", "d0"], ["new_group", 1], ["remove_group", 0], ["setitem_same", "d1"],
+             ["append", "d0"], ["clear"], ["extend", ["d2", "d0"]]]
 BLOCK = 20
 EXHAUSTIVE = {"quick": False, "thorough": False}
 
@@ -555,6 +868,9 @@ def _streams(tier, seed):
                 st.extend(block)
         out.append(st)
     out.append([["rand", i] for i in range(0, N_RANDOM[tier], BLOCK)])
+    out.append([["wide", i] for i in range(0, N_WIDE[tier], BLOCK)])
+    out.append([["delay", si, a] for si in range(2) for a in range(len(DELAY_SUB))])
+    out.append([["bulk", i] for i in range(N_BULK[tier])])
     return out
 
 
@@ -624,7 +940,92 @@ def random_history(rng):
     return hist
 
 
+def wide_history(rng):
+    """Random history over the widened token set: delay blocks, re-entrant listener reactions, fault calls followed by
+    valid calls, empty / pre-registered / twin datasets, the same object twice, falsy labels, a state object shared by
+    several groups (and collections), a second live collection, removed objects dropped and collected, old-protocol
+    restore paths, undo/redo walks.  Plain tokens of random_history are mixed in."""
+    base = random_history(rng)[:rng.choice([8, 12, 16, 24])]
+    names = ["d0", "d1", "d2"]
+    out = []
+    simple = [["append", "d0"], ["append", "d1"], ["append", "d2"], ["remove", "d0"], ["remove", "d1"], ["remove", "d2"],
+              ["new_group", 1], ["new_group", 3], ["remove_group", 0], ["remove_group", 1], ["setitem_same", "d1"],
+              ["clear"], ["extend", ["d2", "d0"]], ["set_state", 0, 4], ["append_new"]]
+    for tok in base:
+        r = rng.random()
+        if r < 0.45:
+            out.append(tok)
+            continue
+        r = rng.random()
+        if r < 0.12:
+            out.append(["delay", [rng.choice(simple) for _ in range(rng.randint(2, 4))]])
+        elif r < 0.24:
+            out.append(["react", rng.randrange(len(REACTIONS))])
+            out.append(rng.choice(simple))
+        elif r < 0.32:
+            out.append(["fault", rng.randrange(len(FAULTS))])
+        elif r < 0.38:
+            out.append(["append_empty"])
+        elif r < 0.42:
+            out.append(["fill_empty"])
+        elif r < 0.47:
+            out.append(["append_prereg"])
+        elif r < 0.52:
+            out.append(["extend_dup", rng.choice(names)])
+        elif r < 0.54:
+            out.append(["extend_empty"])
+        elif r < 0.59:
+            out.append(["setitem_replace", rng.choice(names)])
+        elif r < 0.66:
+            out.append(["remove_group_again", rng.randrange(3)])
+        elif r < 0.68:
+            out.append(["new_group_falsy", rng.randrange(4)])
+        elif r < 0.74:
+            out.append(["set_state_shared", rng.randrange(3), rng.randrange(len(STATE_VARIANTS))])
+        elif r < 0.84:
+            sub = rng.choice(simple + [["set_state_shared", 0, rng.choice([1, 5, 6, 9])], ["restore", "string"],
+                                       ["cmd_apply", 1, "new"], ["undo"]])
+            out.append(["sib", sub])
+        elif r < 0.87:
+            out.append(["forget"])
+        elif r < 0.94:
+            out.append(["restore", rng.choice(["v3", "v2", "v3", "file"])])
+        else:
+            j = rng.randint(1, 3)
+            out += [["undo"]] * j + [["redo"]] * rng.randint(1, j) + [["undo"]] * rng.randint(1, j)
+    return out
+
+
+def bulk_history(rng):
+    """More groups than default colours and a dozen datasets; removals from the middle; restore; walk."""
+    hist = [["new_group", rng.randrange(len(STATE_VARIANTS))] for _ in range(rng.randint(10, 14))]
+    hist += [["append_new"] for _ in range(rng.randint(8, 12))] + [["extend", ["d0", "d1", "d2"]]]
+    rng.shuffle(hist)
+    tail = [["remove_group", rng.randrange(4, 9)], ["remove", "e3"], ["remove", "d1"], ["remove_group", rng.randrange(2, 6)],
+            ["restore", rng.choice(["string", "v3"])], ["append", "e3"], ["new_group", 2], ["cmd_apply", 1, "new"], ["cmd_remove", "e5"],
+            ["undo"], ["undo"], ["redo"], ["redo"], ["undo"], ["setitem_same", "e2"], ["remove_group", 0], ["append", "d1"],
+            ["delay", [["append_new"], ["remove", "e1"], ["new_group", 6]]], ["clear"], ["append", "e4"], ["append", "d0"]]
+    cut = rng.randint(6, len(tail))
+    return hist + tail[:cut]
+
+
 def run_case(ctx, case):
+    if case[0] == "wide":
+        for _ in range(BLOCK):
+            start = ctx.rng.choice(["empty", "two_data_one_group", "three_data_two_groups", "three_data_two_groups"])
+            run_history(ctx, start, wide_history(ctx.rng), "wide_random")
+        return
+    if case[0] == "delay":
+        _, si, a = case
+        start = ["two_data_one_group", "three_data_two_groups"][si]
+        for b2 in range(len(DELAY_SUB)):
+            run_history(ctx, start, [["delay", [DELAY_SUB[a], DELAY_SUB[b2]]], ["append", "d1"]], "delay_enumerated")
+            for c3 in range(len(DELAY_SUB)):
+                run_history(ctx, start, [["delay", [DELAY_SUB[a], DELAY_SUB[b2], DELAY_SUB[c3]]]], "delay_enumerated")
+        return
+    if case[0] == "bulk":
+        run_history(ctx, "empty", bulk_history(ctx.rng), "bulk")
+        return
     if case[0] == "enum":
         _, ei, length, prefix = case
         start, L, alpha = ENUM[ctx.tier][ei]
@@ -640,10 +1041,18 @@ def run_case(ctx, case):
 def floors(counters, tier):
     out = []
     need = {"quiescent_point_checks": 15000, "dataset_group_pairs_checked": 30000, "histories_enumerated": 4000,
-            "histories_random": 500, "histories_with_remove_then_reappend": 500, "histories_with_restore": 500,
+            "histories_random": 400, "histories_with_remove_then_reappend": 500, "histories_with_restore": 500,
             "histories_with_reappend_and_restore": 100, "histories_with_undo": 250, "histories_with_redo_after_undo": 50,
             "histories_with_merge": 200, "histories_with_remove_group": 500, "histories_with_command_created_group": 1000,
-            "steps_clear": 500}
+            "steps_clear": 500,
+            # adversarial widening round: every added class must have been exercised
+            "histories_wide_random": 160, "histories_delay_enumerated": 250, "histories_bulk": 3,
+            "histories_with_delay_block": 300, "histories_with_reentrant_listener": 50, "reads_during_broadcast": 100,
+            "histories_with_fault_call": 30, "fault_call_raised_as_documented": 30, "histories_with_empty_dataset": 30,
+            "histories_with_preregistered_dataset": 20, "histories_with_replaced_by_twin": 12,
+            "histories_with_remove_group_twice": 6, "histories_with_shared_state_object": 20,
+            "histories_with_second_collection": 40, "histories_with_forget_and_collect": 15,
+            "restore_through_protocol_v3": 8, "restore_through_protocol_v2": 3}
     if tier == "thorough":
         need = {k: 2 * v for k, v in need.items()}
     for k, v in need.items():
